@@ -357,8 +357,38 @@ def check_hull_corners(ctx, db):
               'the qhull branch stores %s' % sorted((i_, s_) for _, i_, _, s_ in reads))
 
 
+def check_empty_box_tests(ctx, db):
+    """R-BOUND.empty: a box is empty exactly when min > max on an axis; a box of zero extent (one point, one label, a vertical or
+    horizontal line) is not empty. Every comparison of a minimum corner with a maximum corner on the same axis therefore has
+    the inclusive form (`min <= max` for "has content", `min > max` for "empty"), whichever way round it is written."""
+    n = 0
+    for f in db.functions:
+        if f.body is None or not f.relfile().startswith(('src/', 'include/gdstk/')):
+            continue
+        for x in f.walk():
+            if x.k != 'BinaryOperator' or x.op not in ('<', '<=', '>', '>='):
+                continue
+            l, r = _strip_casts(x.child('lhs')), _strip_casts(x.child('rhs'))
+            if l is None or r is None or l.k != 'MemberExpr' or r.k != 'MemberExpr' or l.n != r.n or l.n not in ('x', 'y'):
+                continue
+            lt, rt = norm(l.child('base').text()) if l.child('base') is not None else '', norm(r.child('base').text()) if r.child('base') is not None else ''
+            lmin, lmax, rmin, rmax = 'min' in lt.lower(), 'max' in lt.lower(), 'min' in rt.lower(), 'max' in rt.lower()
+            if lmin and rmax and not lmax and not rmin and lt.lower().replace('min', '') == rt.lower().replace('max', ''):
+                op = x.op
+            elif lmax and rmin and not lmin and not rmax and lt.lower().replace('max', '') == rt.lower().replace('min', ''):
+                op = {'<': '>', '<=': '>=', '>': '<', '>=': '<='}[x.op]          # read as min OP max
+            else:
+                continue
+            n += 1
+            ctx.touch(f)
+            ctx.check(op in ('<=', '>'), 'R-BOUND.empty', '%s/min-vs-max@%s' % (f.qn.replace('gdstk::', ''), x.loc()), x.loc(), 'emptiness test in inclusive form (`%s`): a box of zero extent counts as content' % norm(x.text()),
+                      '`%s` treats a box of zero extent on this axis (a single label or point, a vertical line) as empty: its contents drop out of the bounding box' % norm(x.text()))
+    ctx.require('R-BOUND.empty min-vs-max comparisons', n, 2)
+
+
 def run(ctx):
     db = ctx.db
+    ctx.attempt(check_empty_box_tests, ctx, db)
     ctx.attempt(check_aggregates, ctx, db)
     ctx.attempt(check_minmax, ctx, db)
     ctx.attempt(check_cache_coherence, ctx, db)
@@ -376,7 +406,7 @@ def run(ctx):
 
 
 MANIFEST = dict(
-    text='Decides structural necessary conditions of exact boxes/hulls for every hierarchy: both cell aggregators visit all five element arrays and the hull takes every repetition offset; every running-extremum update compares and assigns matching components, keeps one role per accumulator, covers min.x/min.y/max.x/max.y in each loop and feeds minima from min corners and maxima from max corners; every read of a cached hull/box is guarded by the matching valid flag of the same entry or follows recomputation by the matching function, and cache entries are stored under the cell\'s own name with exactly the computed flag; per-axis extreme offsets never feed a convex hull for Explicit repetitions; gdstk::convex_hull reports only elements of its input (no corner assembled from separate coordinate extrema, also in the collinear fallback); every box routine establishes the inverted box before any return; cache-less overloads are thin wrappers; the scratch array of repetition offsets is emptied after every repeated element of Cell::convex_hull; the box routines are dimensionally consistent (coordinates only meet coordinates); every consumer of Repetition::get_extrema walks the whole list; the axis-aligned shortcut of Reference::bounding_box is taken only for exact multiples of 90 degrees. Hull correctness (qhull) and numeric extremes are not decided.',
+    text='Decides structural necessary conditions of exact boxes/hulls for every hierarchy: both cell aggregators visit all five element arrays and the hull takes every repetition offset; every running-extremum update compares and assigns matching components, keeps one role per accumulator, covers min.x/min.y/max.x/max.y in each loop and feeds minima from min corners and maxima from max corners; every read of a cached hull/box is guarded by the matching valid flag of the same entry or follows recomputation by the matching function, and cache entries are stored under the cell\'s own name with exactly the computed flag; per-axis extreme offsets never feed a convex hull for Explicit repetitions; gdstk::convex_hull reports only elements of its input (no corner assembled from separate coordinate extrema, also in the collinear fallback); every box routine establishes the inverted box before any return; cache-less overloads are thin wrappers; the scratch array of repetition offsets is emptied after every repeated element of Cell::convex_hull; the box routines are dimensionally consistent (coordinates only meet coordinates); every consumer of Repetition::get_extrema walks the whole list; the axis-aligned shortcut of Reference::bounding_box is taken only for exact multiples of 90 degrees; every emptiness test comparing a minimum with a maximum corner is inclusive (a box of zero extent is content). Hull correctness (qhull) and numeric extremes are not decided.',
     note='Trusted: clang front end, gx, sa rules; Repetition::get_extrema semantics are C11\'s obligations.',
     technique='aggregate-completeness and flag-guard dominance rules over typed AST/CFG + running-extremum idiom algebra + who-may-flow effect rule',
     design='§4 C09')
